@@ -555,6 +555,9 @@ func fitTarget(h ref.Hunk) (val.V, bool) {
 			}
 			return o, true
 		case ref.Index:
+			if e.Index > 4096 {
+				return nil, false // no padding of millions of elements for a hand-written index
+			}
 			if len(path) > 1 {
 				child, ok := build(path[1:])
 				if !ok || val.IsVoid(child) {
